@@ -175,6 +175,26 @@ Section Jet.
       else None
     end.
 
+  (* CANDIDATE REPAIR of jetexpand_ode_via_jvp (not the current code): t is handed
+     to jvp as one more primal with tangent 1, i.e.
+     F_{n+1} = <grad_x F_n, (x_1, .., x_{k-1}, f)> + dF_n/dt *)
+  Definition pone : poly := [(1, [])].
+  Definition jvp_step_poly_fixed (v : vfield) (g : poly) : poly :=
+    padd (jvp_step_poly v g) (pmul (diff_poly (vf_k v * vf_d v) g) pone).
+  Fixpoint jvp_polys_fixed (v : vfield) (n : nat) : list poly :=
+    match n with O => vf_f v | S n' => map (jvp_step_poly_fixed v) (jvp_polys_fixed v n') end.
+  Definition via_jvp_fixed_model (v : vfield) (inits : list tvec) (t : F) (num : nat)
+    : option (list tvec) :=
+    match num with
+    | O => Some inits
+    | S _ =>
+      if Nat.eqb (length inits) (vf_k v)
+      then Some (inits ++ map (fun n => map (eval_poly (vf_env inits t)) (jvp_polys_fixed v n))
+                              (seq 0 num))
+      else None
+    end.
+
+
   (* ------------------------------------- jetexpand_ode_doubling_unroll *)
   (* the embedded jet: coefficients c ++ zeros (length N = 2 deg), the time
      variable is the CONSTANT series t (closed over) *)
